@@ -673,9 +673,11 @@ def drv_poly_reduce(case):
         # the domain of a column is changed on the queried object (new variable / Bounds edited in place): it answers for the new box
         for j, v in enumerate(list(Q.variables)[1:]):
             lo, hi = int(v.bounds.lower), int(v.bounds.upper)
-            if hi > lo:
-                if case.get("k", 0) % 2: Q.variables[j + 1] = puan.variable(v.id, (lo, hi - 1))
-                else: v.bounds.upper = hi - 1
+            if hi > lo or case.get("k", 0) % 2:
+                # (widened in most cases: answers kept from the narrower box would be unsound for the wider one)
+                nlo, nhi = (lo, hi - 1) if (case.get("k", 0) % 4 == 0 and hi > lo) else ((lo - 1, hi) if case.get("k", 0) % 4 == 1 else (lo, hi + 1))
+                if case.get("k", 0) % 2: Q.variables[j + 1] = puan.variable(v.id, (nlo, nhi))
+                else: v.bounds.lower, v.bounds.upper = nlo, nhi
                 b2 = _pp(Q, tok)
                 r2, c2 = Q.reducable_rows(), Q.reducable_columns_approx()
                 fx2, vl2 = _cv(c2)
@@ -721,7 +723,8 @@ def drv_tighten(case):
             for v in list(P.variables)[1:]:
                 if int(v.bounds.upper) > int(v.bounds.lower):
                     try:
-                        v.bounds.upper = int(v.bounds.upper) - 1
+                        if k % 2: v.bounds.upper = int(v.bounds.upper) - 1
+                        else: v.bounds.upper = int(v.bounds.upper) + 1
                     except Exception:
                         break
                     base = _pp(P, tok)
